@@ -83,8 +83,16 @@ def k1_multiline(ctx):
         for (lines, v, safe), r in zip(cases, res):
             run.count()
             src, out, val = real_embed(lines, v)
-            m_src, m_out, m_ev = r
+            m_src, m_out, m_ev, m_matches = r
             suf = ")" if v == "client" else ""
+            k = 12 if v == "client" else 0
+            # ---- the property itself on the real code: the evaluated text is the lines, each possibly indented
+            if not text_roundtrip_ok(val, lines, k):
+                run.violation(f"the embedded operation text does not evaluate back to the lines {lines!r} ({v})",
+                              {"lines": lines, "variant": v, "source": src, "formatted": out, "value": val})
+            if m_out == "unsupported":
+                run.dist("k1_text", "outside-model")
+                continue
             problems = []
             if m_src != src:
                 problems.append("unparse/repr")
@@ -102,28 +110,36 @@ def k1_multiline(ctx):
             elif kind == "syntax" and val[0] == "ok":
                 problems.append("model says syntax error, Python evaluates")
             run.dist("k1_text", kind)
-            all_safe = all(G.is_safe_line(l) for l in lines)
-            if all_safe:
-                run.dist("k1_text_safe", f"{len(lines)}-lines" if len(lines) < 4 else "4+-lines")
-                # the theorem's prediction, checked on the real code as well (direct oracle for the safe class)
-                k = 12 if v == "client" else 0
-                want = "\n" + "".join((l + "\n") if not (l + "\n").strip() else " " * k + l + "\n" for l in lines) + " " * k
-                if len(lines) >= 2 and val != ("ok", want):
-                    run.violation(f"embed_roundtrip fails on the real code for safe lines {lines!r} ({v})",
-                                  {"lines": lines, "variant": v, "source": src, "formatted": out, "value": val,
-                                   "expected": want})
+            run.dist("k1_text_matches", {"0": "no-match", "1": "one-match"}.get(m_matches, "several-matches"))
+            if kind != "clean":
+                problems.append(f"model does not predict a clean statement ({kind})")
             if problems:
                 bad += 1
                 if bad <= 5:
-                    # search: does the property fail here?  (is the evaluated text lexically the joined lines?)
                     run.violation(f"K1 text path: model and implementation disagree at {', '.join(problems)} for "
-                                  f"lines {lines!r} ({v})",
+                                  f"lines {lines!r} ({v}); the property "
+                                  + ("fails" if not text_roundtrip_ok(val, lines, k) else "holds") + " on this input",
                                   {"lines": lines, "variant": v, "impl": {"source": src, "formatted": out, "value": val},
-                                   "model": {"source": m_src, "formatted": m_out, "eval": m_ev}}, found_input=False)
-            if not all_safe:
+                                   "model": {"source": m_src, "formatted": m_out, "eval": m_ev}},
+                                  found_input=not text_roundtrip_ok(val, lines, k))
+            if not all(G.is_safe_line(l) for l in lines):
                 run.nontrivial_case(("text", tuple(lines), v))
     run.extra["k1_text_cases"] = n
     run.extra["k1_text_disagreements"] = bad
+
+
+def text_roundtrip_ok(val, lines, k):
+    """C02 on the text path: the literal evaluates to the operation text up to a leading newline and an
+    indentation of k blanks in front of lines (and after the last one)"""
+    if val[0] != "ok" or not isinstance(val[1], str):
+        return False
+    text = val[1]
+    if text == "".join(l + "\n" for l in lines):
+        return True
+    parts = text.split("\n")
+    if len(parts) != len(lines) + 2 or parts[0] != "" or parts[-1] != " " * k:
+        return False
+    return all(p == l or p == " " * k + l for p, l in zip(parts[1:-1], lines))
 
 
 # ====================================================================================== K2 closure
@@ -194,18 +210,8 @@ def model_docs(gens):
 
 
 def classify(g, op, problems, covered):
-    """finding class of a failing operation, or None (= violation)"""
-    names, frags = G.reachable(g.doc, op)
-    printed = "\n\n".join([print_ast(op)] + [print_ast(frags[n]) for n in names])
-    kinds = {p["kind"] for p in problems}
-    tc = G.text_classes(printed)
-    if tc and kinds & {"unparseable", "ast", "invalid", "no-query", "generation"}:
-        return tc[0]
-    if "fragments" in kinds and covered is False:
-        return "C02-dropped-spread"
-    mixin_defs = [n for n in names if any(d.name.value == "mixin" for d in (frags[n].directives or ()))]
-    if mixin_defs and kinds <= {"invalid", "ast"}:
-        return "C02-mixin-on-fragment-definition"
+    """finding class of a failing operation, or None (= violation).  Every class found while building the check
+    is fixed in /repo (known_findings/C02.json "fixed"); the former class streams stay as regression streams."""
     return None
 
 
@@ -251,8 +257,7 @@ def drive(run, g, mdocs, msets, stream, extract=False):
                     problems.append({"kind": "constant", "variable": var, "constant": consts.get(var)})
             covered = None
             if msets and msets[0] == "ok" and i < len(msets[1]):
-                covered = msets[1][i][3] == "t"
-                if msets[1][i][4] != "t":
+                if msets[1][i][3] != "t":
                     run.broken("guard", f"recorded_reachable is false for {op.name.value} seed {g.sc.seed}: the generator "
                                         "recorded a fragment the operation does not reach")
             # K1b
@@ -287,9 +292,6 @@ def drive(run, g, mdocs, msets, stream, extract=False):
                     run.dist(stream, "VIOLATION")
             else:
                 run.dist(stream, "holds")
-                if covered is False:
-                    run.broken("guard", f"model guard exact_guard is false but the property holds for {op.name.value} "
-                                        f"seed {g.sc.seed}")
                 names, _ = G.reachable(g.doc, op)
                 run.nontrivial_case((g.sc.seed, stream, op.name.value)) if (names or "__typename" in (q or "")) else None
     finally:
@@ -303,13 +305,8 @@ def generation_failed(run, g, stream):
     run.dist(stream, "generator-raised:" + short)
     if "InvalidInput" in exc[0] or "SyntaxError" in exc[0] or "TokenError" in exc[0]:
         # the text path broke the generated source: a C02 failure for every operation of the package
-        printed = g.sc.queries
-        tc = G.text_classes(print_ast(parse(printed)))
-        rep = dict(base_rep(g), exc=exc)
-        if tc:
-            run.finding(tc[0], f"generation dies in black ({short}) on a valid operation", rep)
-        else:
-            run.violation(f"generation dies in the text path ({short}) on a valid operation outside every finding class", rep)
+        run.violation(f"generation dies in the text path ({short}) on a valid operation",
+                      dict(base_rep(g), exc=exc, text_classes=G.text_classes(print_ast(parse(g.sc.queries)))))
         return True
     return False
 
@@ -377,11 +374,23 @@ def documents(ctx):
         s = make_base(base + 1000 + i)
         if s:
             d = G.decorate(s, base + i, adversarial=False, mixin_field=True, blocks=False)
+            run.dist("decoration", "decorated" if d else "fell-back-to-plain")
             main.append(d or s)
     n_ok = stream_scenarios(ctx, "plain", plain)
     n_ok += stream_scenarios(ctx, "decorated", main)
     if n_ok < 0.6 * (len(plain) + len(main)):
         run.broken("generation", f"only {n_ok} of {len(plain) + len(main)} valid scenarios generate")
+    # ---- everything that used to be a finding class, together: quotes, \n escapes, block strings, U+2028,
+    #      @mixin on fragment definitions
+    advs = []
+    for i in range(80 if T else 12):
+        s = make_base(base + 2000 + i)
+        if s:
+            d = G.decorate(s, base + 555 + i, adversarial=True, mixin_field=True, mixin_def=True, blocks=True)
+            if d:
+                advs.append(d)
+    stream_scenarios(ctx, "decorated_adversarial", advs)
+    stream_scenarios(ctx, "decorated_adversarial_extract", advs[: (20 if T else 4)], extract=True)
     # ---- ExtractOperations
     ext = []
     for i in range(60 if T else 10):
@@ -492,13 +501,11 @@ def literals(ctx):
             continue
         rep = {"schema": sc.sdl, "queries": sc.queries, "value": v, "block": b, "where": w, "problems": problems,
                "sent": sent}
-        if tc:
-            run.finding(tc[0], f"literal {v!r} ({'block' if b else 'string'}, {w}): " + problems[0]["kind"], rep)
-        else:
-            m = minimise(v, b, w) if minimised < 2 else v
-            minimised += 1
-            rep["minimised_value"] = m
-            run.violation(f"C02 fails for the string literal {m!r} at position {w} (outside every finding class)", rep)
+        m = minimise(v, b, w) if minimised < 2 else v
+        minimised += 1
+        rep["minimised_value"] = m
+        rep["formerly_class"] = tc
+        run.violation(f"C02 fails for the string literal {m!r} at position {w}", rep)
     # ExtractOperations goes through the same rewriter with offset 0: one representative per class
     ex = run_tiny([("plain = # text", False, "argument"), ("it's", False, "argument"), ("a\nb", False, "argument"),
                    ("blk", True, "argument")], extract=True)
@@ -508,10 +515,7 @@ def literals(ctx):
         run.dist("literal_extract_operations", ("holds" if ok else "fails") + ":" + (tc[0] if tc else "no-class"))
         if not ok:
             rep = {"schema": sc.sdl, "queries": sc.queries, "problems": problems, "sent": sent, "extract": True}
-            if tc:
-                run.finding(tc[0], "ExtractOperations constant: " + problems[0]["kind"], rep)
-            else:
-                run.violation("C02 fails with ExtractOperations for a literal outside every finding class", rep)
+            run.violation("C02 fails with ExtractOperations for the literal of " + sc.queries.strip()[:80], rep)
 
 
 def run(ctx):
@@ -536,5 +540,5 @@ def run(ctx):
     literals(ctx)
     run.sample({"safe_lines": ["query A($v: Int = 3) {", '  echo(s: "a # b = c")', "}"],
                 "embedded": "\\n + 12 spaces before every non-blank line + 12 spaces"})
-    run.sample({"literal": "it's", "generator": "black.parsing.InvalidInput"})
-    run.sample({"literal": "a\\nb", "sent": '"a            b"'})
+    run.sample({"literal": "it's", "before 0f971a2": "black.parsing.InvalidInput", "now": "sent unchanged"})
+    run.sample({"literal": "a\\nb", "before 0f971a2": 'sent as "a            b"', "now": "sent unchanged"})
